@@ -5,7 +5,8 @@
     retry mr=<int> init=<ns> max=<ns> mul=<p>/<q> rf=<a>/<b> el=<ns> hook=<0|1> log=<0|1>
           outs=<o0>,<o1>,…      one outcome per possible handler call: f<k> = fails, s<k> = succeeds, with k output messages
                                  (call i returns the messages i.0 … i.(k-1) and, when it fails, the error e<i>)
-          cancel=<j|->           the message context is cancelled from inside call j
+          cancel=<j|->           the message context ends during call j
+          ctxend=<call|pre|deadline|->   how (cancel() inside the call / cancelled before Retry is invoked / a deadline falls)
           sleep=<j>:<ns>|-       call j sleeps (only the harness uses it)
           conc=<M>:<i>:<ns>|-    the message is number i of M sent concurrently through one middleware instance (harness only:
                                  every message has to behave as if it were alone)
@@ -69,7 +70,7 @@ def outcomesOf (s : String) : Option (List Outcome) :=
 
 def parseReq (toks : List String) : Option Req :=
   match toks with
-  | [mr, ini, mx, mul, rf, el, hk, lg, outs, cancel, _sleep, conc, n, d, ts, te, tr, tq] => do
+  | [mr, ini, mx, mul, rf, el, hk, lg, outs, cancel, ctxend, _sleep, conc, n, d, ts, te, tr, tq] => do
     let mr ← (← kv "mr" mr).toInt?
     let ini ← (← kv "init" ini).toNat?
     let mx ← (← kv "max" mx).toNat?
@@ -84,6 +85,10 @@ def parseReq (toks : List String) : Option Req :=
     let outs ← outcomesOf (← kv "outs" outs)
     let cs ← kv "cancel" cancel
     let cancel ← (if cs = "-" then some none else cs.toNat?.map some)
+    let ce ← kv "ctxend" ctxend
+    if !(["call", "pre", "deadline", "-"].contains ce) then none
+    if (ce = "-") != cancel.isNone then none
+    if ce = "pre" && cancel != some 0 then none
     let _ ← kv "sleep" _sleep
     let cc ← kv "conc" conc
     if cc ≠ "-" then
@@ -105,6 +110,10 @@ def parseReq (toks : List String) : Option Req :=
   | _ => none
 
 def failOutcome : Outcome := ⟨[], some 0⟩
+
+/-- a wait shorter than this (10 ms) may have run out before the `select` is entered: with the context already done both
+    alternatives are then ready and Go may take either, so ONE call after the context ended is explained by the race -/
+def raceWait : Nat := 10000000
 
 /-- a timer due this much later than the context's deadline cannot win the `select` (25 ms) -/
 def budgetSlack : Nat := 25000000
@@ -156,7 +165,9 @@ def build (r : Req) : Built :=
     let cancelled := match r.cancel with | some j => decide (j < k) | none => false
     if k < r.n then
       let late := if k = 1 then 0 else (ts k - te (k - 1)) - wOf k
-      ⟨0, draw k, if cancelled || overdue r wOf k then .ctxDone else .timer late, te k - ts k, out⟩
+      -- the one call right after the context ended, made after a wait short enough to race ctx.Done(), is the timer's
+      let raced := match r.cancel with | some j => k = j + 1 && decide (wOf k < raceWait) | none => false
+      ⟨0, draw k, if (cancelled && !raced) || overdue r wOf k then .ctxDone else .timer late, te k - ts k, out⟩
     else
       -- the real run made no k-th call: the context is done if it was cancelled, or if MaxElapsedTime can have passed
       let expired := cfg.maxElapsed != 0 && decide (r.tr - te 0 ≥ cfg.maxElapsed)
@@ -262,7 +273,15 @@ def monitor (r : Req) (o : Obs) : String := Id.run do
     if o.hooks.map (·.1) != (List.range failedRetries).map (· + 1) then return "violated:hooks_in_order"
   -- gives up when the context ends: no call after the one that cancelled it
   match r.cancel with
-  | some j => if n > j + 1 then return "violated:gives_up_on_ctx_end"
+  | some j =>
+    -- one more call is tolerated when the wait before it was short enough to race ctx.Done() (reported delay, else the
+    -- measured gap, which the wait cannot exceed); never a second one
+    let short : Bool := match o.hooks[j]? with
+      | some (_, d) => decide (d < (raceWait : Int))
+      | none => match r.ts[j + 1]?, r.te[j]? with
+        | some s, some e => decide (s < e + raceWait)
+        | _, _ => false
+    if n > j + 1 + (if short then 1 else 0) then return "violated:gives_up_on_ctx_end"
   | none => pure ()
   -- waits at least the configured back-off before the k-th retry
   let ts (k : Nat) : Nat := r.ts[k]?.getD 0
